@@ -42,6 +42,7 @@ class Net:
         self.udp_latency = 0.0
         self.tls_log = []
         self.spins = []  # connection indices on which a reader spun after EOF
+        self.hosts = {}  # simulated name resolution: host name -> ip
 
     def count(self, kind, n=1):
         self.fault_counts[kind] = self.fault_counts.get(kind, 0) + n
@@ -396,6 +397,7 @@ def create_connection(address, timeout=_socket._GLOBAL_DEFAULT_TIMEOUT, source_a
     port = int(port)
     if host == 'localhost':
         host = '127.0.0.1'
+    host = net.hosts.get(host, host)
     dst = (host, port)
     tmo = None if timeout is _socket._GLOBAL_DEFAULT_TIMEOUT else timeout
     s.yield_point('connect', f'{host}:{port}')
@@ -756,7 +758,7 @@ def install():
     socketserver.socket = make_fake_socket_module(SimListenSocket)
     socketserver._ServerSelector = SimServerSelector
     _socket.create_connection = create_connection
-    _socket.gethostbyname = lambda h: h if h[:1].isdigit() else '127.0.0.1'
+    _socket.gethostbyname = lambda h: h if h[:1].isdigit() else (NET.hosts.get(h, '127.0.0.1') if NET is not None else '127.0.0.1')
 
 
 def install_udp():
